@@ -173,6 +173,24 @@ Theorem C13_dispatch_by_class_sound : forall ch default (os : list pyobj),
 Proof. exact dispatch_by_class_sound. Qed.
 Print Assumptions C13_dispatch_by_class_sound.
 
+(* ---- the model's dict lookup (== only) is CPython's (hash, then ==) ---------------------------- *)
+(* Python's data-model law a == b -> hash(a) == hash(b) holds for the modelled hash on frozenset-free
+   values (so 1, 1.0, True share a slot, as in CPython) *)
+Theorem C13_hash_respects_eq : forall e a, no_frozen a = true ->
+  forall b, py_eqb a b = true -> py_hash e a = py_hash e b.
+Proof. exact hash_respects_eq. Qed.
+Print Assumptions C13_hash_respects_eq.
+
+(* ---- canonicalisation ------------------------------------------------------------------------ *)
+(* with canonicalize=True an injective (w.r.t. ==) relabelling of the indices yields the very same
+   normalised call -- same key, same arguments handed to the computation: sharing the entry is right *)
+Theorem C13_canonical_form_ignores_labels : forall rho : pyval -> pyval,
+  (forall a b, py_eqb (rho a) (rho b) = py_eqb a b) ->
+  forall r, r_canon r = true -> is_edge_path (r_optimize r) = false ->
+  normalize (relabel rho r) = normalize r.
+Proof. exact canonical_form_ignores_labels. Qed.
+Print Assumptions C13_canonical_form_ignores_labels.
+
 (* ---- non-vacuity ---------------------------------------------------------------------------- *)
 (* a concrete sequence with a hit, a miss caused by a different kwarg and an uncached call, under
    the generated key; `build` = the list of the used fields' values *)
@@ -227,3 +245,20 @@ Example C13_example_stateful_expression_visible :
                      (fun (s : Z) (a : Z) => ((s + 1)%Z, (a + s)%Z)) [(tt, 5%Z); (tt, 5%Z)]
   <> obj_plain_outputs (fun _ : unit => 0%Z) (fun (s : Z) (a : Z) => ((s + 1)%Z, (a + s)%Z)) [(tt, 5%Z); (tt, 5%Z)].
 Proof. vm_compute. discriminate. Qed.
+
+(* a relabelling that satisfies the hypothesis of C13_canonical_form_ignores_labels and changes the call *)
+Definition ex_rho (v : pyval) : pyval := match v with PStr t => PStr (120%nat :: t) | _ => v end.
+Example C13_example_rho_eq : forall a b, py_eqb (ex_rho a) (ex_rho b) = py_eqb a b.
+Proof.
+  intros a b; destruct a, b; reflexivity.
+Qed.
+Definition ex_raw : rawcall :=
+  mkRaw [[PStr [105%nat]; PStr [106%nat]]; [PStr [106%nat]; PInt 7]] (Some [PInt 7; PStr [105%nat]])
+        None (Some [[PInt 2; PInt 3]; [PInt 3; PInt 4]]) (PStr [97%nat; 117%nat; 116%nat; 111%nat])
+        true false [] true true.
+Example C13_example_relabel :
+  r_inputs (relabel ex_rho ex_raw) <> r_inputs ex_raw /\
+  normalize (relabel ex_rho ex_raw) = normalize ex_raw /\
+  option_map (fun c => getf (nc_fields c) "inputs") (normalize ex_raw)
+  = Some (PTuple [PTuple [PStr [97%nat]; PStr [98%nat]]; PTuple [PStr [98%nat]; PStr [99%nat]]]).
+Proof. split; [vm_compute; discriminate | split; vm_compute; reflexivity]. Qed.
